@@ -2238,3 +2238,64 @@ def r1_14(rep):
                   "requested after `requires_explicit_align`" if need else
                   "`explicit_align` is set without asking whether the members already give the alignment: the type carries "
                   "`#[repr(align(N))]` for its natural alignment, and a packed struct with such a member is rejected (E0588)", b.loc(n))
+
+
+# =====================================================================================================
+# R1.15 / R1.16
+# =====================================================================================================
+@RULES.rule("R1.15", "\"this enum has a typedef of the same name\" is decided within one module", floor=1)
+def r1_15(rep):
+    """An enum whose name is also the name of an integer typedef IN THE SAME MODULE is emitted without its `pub type N = ..;` (the
+    typedef provides it).  `compute_enum_typedef_combos` collects the typedef names of a module and then looks the module's enums up in
+    that set; the set has to start empty for every module.  Kept across modules, `typedef unsigned flags;` at the top level makes
+    `namespace net { enum flags {..}; }` lose its type alias while constants and fields still name it (E0425, seeded change)."""
+    prog = rep.prog
+    b = rep.need(prog.fn("ir::context::BindgenContext::compute_enum_typedef_combos"), "BindgenContext::compute_enum_typedef_combos")
+    loops = [n for n in b.walk() if n["k"] == "For"]
+    outer = [l for l in loops if not any(a["k"] == "For" for a in b.ancestors(l))]
+    rep.need(len(outer) == 1, "the loop over all items (modules)")
+    outer = outer[0]
+    n = 0
+    for c in b.calls(lambda x: x["k"] == "MCall" and x["name"] == "contains" and "HashSet" in (x.get("callee") or "")):
+        r = strip(c["recv"])
+        if r.get("k") != "Local" or not any(a is outer for a in b.ancestors(c)):
+            continue
+        ins = [i for i in b.calls(lambda x: x["k"] == "MCall" and x["name"] == "insert") if strip(i["recv"]).get("id") == r["id"]]
+        if not ins:
+            continue
+        n += 1
+        d = b.local_def.get(r["id"])
+        let = d[0][1] if d and d[0][0] == "let" else None
+        inside = let is not None and any(a is outer for a in b.ancestors(let))
+        rep.check(inside, "per-module-set:%s" % ("names" if n == 1 else str(n)), "the set of typedef names is created inside the loop over the modules" if inside else
+                  "the set that is filled with a module's typedef names and queried for its enums is created once, outside the loop over the "
+                  "modules: it still holds the names of every module visited before", b.loc(let or c))
+    rep.need(n >= 1, "a set that is filled and queried inside the module loop")
+
+
+@RULES.rule("R1.16", "a derive list never names a trait twice", floor=1)
+def r1_16(rep):
+    """`#[derive(PartialEq, PartialEq)]` is two conflicting impls (E0119).  Custom derives come from several sources (each
+    `--with-derive-custom*` flag is a callback of its own), so `append_custom_derives` has to test every candidate against the list
+    AS IT GROWS: the membership test and the push belong to the same loop iteration.  Filtering all candidates against the original
+    list first and extending afterwards lets two sources add the same trait (seeded change)."""
+    prog = rep.prog
+    b = rep.need(prog.fn("codegen::append_custom_derives"), "codegen::append_custom_derives")
+    tgt = b.params[0].get("id")
+    adds = [c for c in b.calls(lambda x: x["k"] == "MCall" and x["name"] in ("push", "extend", "extend_from_slice", "append", "insert"))
+            if strip(c["recv"]).get("k") == "Local" and strip(c["recv"])["id"] == tgt]
+    rep.need(adds, "additions to the derive list")
+    for c in adds:
+        ok = False
+        why = "`%s`" % c["name"]
+        if c["name"] == "push":
+            loop = next((a for a in b.ancestors(c) if a["k"] in ("For", "While", "Loop")), None)
+            tests = [(pol, g) for pol, kind, g in b.guards(c) if kind == "cond" and "contains(" in b.canon(g, 6) and
+                     any(x["k"] == "Local" and x["id"] == tgt for x in b.walk(g))]
+            neg = any(((not pol) and b.canon(g, 6).lstrip("(").startswith(("std::", "bitflags::"))) or (pol and "(!" in b.canon(g, 6)) for pol, g in tests)
+            in_same_iter = loop is not None and all(any(a is loop for a in b.ancestors(g)) for _, g in tests)
+            ok = bool(tests) and neg and in_same_iter
+            why = "pushed under `!derives.contains(..)` evaluated in the same iteration" if ok else "pushed without a membership test on the growing list"
+        rep.check(ok, "no-duplicate-derive@append_custom_derives", why if ok else
+                  "%s: candidates are not compared with what was added earlier in the same call, so two sources naming the same trait "
+                  "produce `#[derive(X, X)]`" % why, b.loc(c))
